@@ -29,13 +29,13 @@ def one(patch):
 
 def main():
     root = sys.argv[1]
-    patches = sorted(glob.glob(os.path.join(root, '*', 'REFACTORS', '*', 'patch.diff')) + glob.glob(os.path.join(root, '*', 'patch.diff')))
+    patches = sorted(glob.glob(os.path.join(root, '*', os.environ.get('REFDIR', 'REFACTORS'), '*', 'patch.diff')) + glob.glob(os.path.join(root, '*', 'patch.diff')))
     patches = [p for p in patches if os.path.getsize(p) > 0]
     with ProcessPoolExecutor(16) as ex:
         results = list(ex.map(one, patches))
     fa = und = 0
     for patch, res in results:
-        tag = patch.replace(root, '').strip('/').replace('/REFACTORS', '').replace('/patch.diff', '')
+        tag = patch.replace(root, '').strip('/').replace('/' + os.environ.get('REFDIR', 'REFACTORS'), '').replace('/patch.diff', '')
         if not res:
             print('%-22s silent' % tag)
             continue
